@@ -305,6 +305,31 @@ fn fits_types(client: &str, server: &str, ep: &Value, ir: &Value) -> Option<Stri
     for a in ep["args"].as_array().cloned().unwrap_or_default() {
         let shape = shape_of(&a["type"], ir, 32);
         let name = a["argName"].as_str().unwrap_or("");
+        // the name an undecodable argument is reported under (its `log_as`, or else its identifier) is the declared one
+        {
+            let kind = a["paramType"]["type"].as_str().unwrap_or("");
+            let snake = heck::ToSnakeCase::to_snake_case(name);
+            let tok = s.iter().find(|t| t[0] == kind && match kind {
+                "path" => t.get(2).map(|i| unhx(i).trim_end_matches('_') == snake).unwrap_or(false),
+                "query" | "header" => t.get(3).map(|i| unhx(i).trim_end_matches('_') == snake).unwrap_or(false),
+                "body" => true,
+                _ => false,
+            });
+            if let Some(t) = tok {
+                let (ident, log) = match kind {
+                    "path" => (t.get(2), t.get(3)),
+                    "query" | "header" => (t.get(3), t.get(4)),
+                    _ => (t.get(2), t.get(3)),
+                };
+                let reported = match log {
+                    Some(l) if *l != "-" => unhx(l),
+                    _ => ident.map(|i| unhx(i)).unwrap_or_default(),
+                };
+                if reported != name {
+                    return Some(format!("the {} argument declared `{}` is reported as `{}` when it cannot be decoded", kind, name, reported));
+                }
+            }
+        }
         match a["paramType"]["type"].as_str().unwrap_or("") {
             "body" => {
                 let want = match shape {
@@ -570,6 +595,8 @@ fn directed() -> Value {
         eps.push(json!({"endpointName": format!("limited{}", n), "httpMethod": "PUT", "httpPath": format!("/l/{}", i), "args": [arg("body", t, json!({"type": "body", "body": {}}))], "markers": [], "tags": [LIMIT_TAGS[i % 5]]}));
     }
     eps.push(json!({"endpointName": "noSegments", "httpMethod": "GET", "httpPath": "/", "args": [], "markers": [], "tags": []}));
+    // wire ids spelled like the Rust identifier of the argument they belong to
+    eps.push(json!({"endpointName": "snakeIds", "httpMethod": "GET", "httpPath": "/snake/{fileName}", "args": [arg("pageSize", &p("INTEGER"), json!({"type": "query", "query": {"paramId": "page_size"}})), arg("maxItems", &opt(p("INTEGER")), json!({"type": "header", "header": {"paramId": "max_items"}})), arg("fileName", &p("STRING"), json!({"type": "path", "path": {}})), arg("type", &p("STRING"), json!({"type": "query", "query": {"paramId": "type_"}}))], "markers": [], "tags": []}));
     eps.push(json!({"endpointName": "paramFirst", "httpMethod": "DELETE", "httpPath": "/{a}/{b}/x/y/{c}", "args": [arg("c", &p("STRING"), json!({"type": "path", "path": {}})), arg("a", &p("INTEGER"), json!({"type": "path", "path": {}})), arg("b", &r("Colour"), json!({"type": "path", "path": {}}))], "markers": [], "tags": []}));
     json!({"version": 1, "errors": [], "types": types, "services": [{"serviceName": tn("EmitService"), "endpoints": eps}], "extensions": {}})
 }
